@@ -18,6 +18,7 @@ from . import core, gen, trees
 from .core import Finding
 
 STEP_BUDGET_S = 10.0
+QUERY_BUDGET_S = 2.0
 MAX_NODES = 90
 MAX_LIVE = 40
 
@@ -151,6 +152,7 @@ class World:
         self.rules = make_rules()
         self.enabled = [r for r in RULES if r in cfg.get("rules", RULES)]
         self.states = []
+        self.slow_rules = set()
         self.planted = [{k: Fraction(v) for k, v in env.items()} for env in cfg.get("planted", [])]
         self.points_cache = {}
         self.ops_done = 0
@@ -171,16 +173,47 @@ class World:
         """All applicable (rule, in-order index) pairs, queried on the live
         state itself as agents do (this writes r_index scratch)."""
         out = []
+        big = None
         for name in self.enabled:
+            if name in self.slow_rules:
+                continue
+            if name in ("DF", "DFc"):
+                # util.factor loops up to sqrt(|coefficient|) in pure Python: querying the
+                # factoring rules on trees with huge constants is a cost, not a property.
+                # Deterministic cut-off (the CPU budget below is only a safety net).
+                if big is None:
+                    big = self._has_huge_constant(root)
+                if big:
+                    self.res.stats["diag.factoring_not_queried_huge_constant"] += 1
+                    continue
             rule = self.rules[name]
             try:
-                nodes = rule.find_nodes(root)
+                with core.op_budget(QUERY_BUDGET_S):
+                    nodes = rule.find_nodes(root)
+            except core.OpTimeout:
+                # e.g. util.factor loops up to sqrt(coefficient): a cost, not a property.
+                # The rule is left out for the rest of this episode.
+                self.res.stats["diag.find_nodes_over_budget." + name] += 1
+                self.slow_rules.add(name)
+                continue
             except Exception as e:  # noqa
                 self.res.stats["diag.find_nodes_raised." + name] += 1
                 continue
             for n in nodes:
                 out.append((name, n.r_index))
         return out
+
+    @staticmethod
+    def _has_huge_constant(root):
+        from mathy_core import expressions as E
+        for n in trees.nodes_preorder(root):
+            if isinstance(n, E.ConstantExpression):
+                try:
+                    if abs(n.value) > 1e10:
+                        return True
+                except Exception:
+                    return True
+        return False
 
     def _admit(self, root, parent, depth):
         s = State(root, parent, depth)
@@ -288,7 +321,8 @@ class World:
         if kind_ == "requery":
             st["fault.requery_of_old_state_between_steps"] += 1
             acts = self._actions(s.root)
-            if acts != s.actions:
+            recorded = [a for a in s.actions if a[0] not in self.slow_rules]
+            if acts != recorded:
                 fs.append(Finding("C09", {"clause": "isolation", "rule": "-", "what": "actions-changed"},
                                   f"state #{si} ({s.printed}): applicable actions changed from "
                                   f"{s.actions[:6]} to {acts[:6]}"))
@@ -481,7 +515,15 @@ RW_GEN = {"depth": 3, "floats": True, "fact": False, "sgn": False, "brackets": F
           "upper": False, "space": 1, "eq": False, "vars": "xyz", "max_len": 200}
 
 
+# swarm: for some runs all literals and exponents come from a tiny pool, so that equal
+# coefficients / equal exponents / repeated constants (the coincidences many rule bugs
+# need) are common instead of vanishingly rare
+_POOL = {"nums": None, "exps": None}
+
+
 def rw_number(rng):
+    if _POOL["nums"]:
+        return rng.choice(_POOL["nums"])
     r = rng.random()
     if r < 0.6:
         return str(rng.randint(0, 12))
@@ -489,7 +531,15 @@ def rw_number(rng):
         return rng.choice(["0.5", "1.5", "2.5", "0.25"])
     if r < 0.9:
         return str(rng.randint(13, 60))
+    if r < 0.93:
+        return rng.choice(["0.00002", "0.0001", "0.000001", "0.1"])
     return rng.choice(["0", "1", "100", "144"])
+
+
+def rw_exp(rng):
+    if _POOL["exps"]:
+        return rng.choice(_POOL["exps"])
+    return str(rng.randint(0, 4))
 
 
 def rw_term(rng, vs):
@@ -502,9 +552,9 @@ def rw_term(rng, vs):
     if r < 0.6:
         return rw_number(rng) + v
     if r < 0.8:
-        return rw_number(rng) + v + "^" + str(rng.randint(0, 4))
+        return rw_number(rng) + v + "^" + rw_exp(rng)
     if r < 0.9:
-        return v + "^" + str(rng.randint(0, 4))
+        return v + "^" + rw_exp(rng)
     return "-" + rng.choice([v, rw_number(rng), rw_number(rng) + v])
 
 
@@ -514,6 +564,8 @@ def rw_expr(rng, d, vs, int_only=False):
     r = rng.random()
     a = rw_expr(rng, d - 1, vs, int_only)
     b = rw_expr(rng, d - 1, vs, int_only)
+    if rng.random() < 0.07:
+        b = a          # twins: identical operands
     if r < 0.3:
         return f"{a} + {b}"
     if r < 0.45:
@@ -558,16 +610,19 @@ def kind_tree_text(rng, d, vs):
         return rw_number(rng) + rng.choice(vs) + "^" + str(rng.randint(0, 3))
     k = rng.choice(["add", "sub", "mul", "div", "pow", "neg", "neg", "sgn", "pow"])
     a = kind_tree_text(rng, d - 1, vs)
+    twin = rng.random() < 0.08
     if k == "neg":
         return f"-({a})"
     if k == "sgn":
         return f"sgn({a})"
-    b = kind_tree_text(rng, d - 1, vs)
+    b = a if twin else kind_tree_text(rng, d - 1, vs)
     op = {"add": "+", "sub": "-", "mul": "*", "div": "/"}.get(k)
     if k == "pow":
         if rng.random() < 0.5:
             b = rng.choice([str(rng.randint(0, 3)), "-" + str(rng.randint(1, 2)), b])
         return f"({a})^({b})"
+    if twin and rng.random() < 0.5:
+        return f"{a} {op} ({b})"       # unparenthesised left twin: (x + 1) - (x + 1) as x + 1 - (x + 1)
     return f"({a}) {op} ({b})"
 
 
@@ -631,6 +686,12 @@ class RewriteSim:
 
     def draw_config(self, rng, prop, tier, stratum, idx):
         cfg = {"prop": prop, "stratum": stratum, "eq_seed": rng.randrange(2 ** 32)}
+        _POOL["nums"] = _POOL["exps"] = None
+        if rng.random() < 0.4:
+            _POOL["nums"] = [rng.choice(["0.5", "0.25", "1.5", "2.5", "0.1", "0.75"]) if rng.random() < 0.4
+                             else rw_number(rng) for _ in range(rng.choice([1, 2, 3]))]
+            _POOL["exps"] = [str(rng.randint(0, 4)) for _ in range(rng.choice([1, 2]))]
+            cfg["literal_pool"] = [_POOL["nums"], _POOL["exps"]]
         src = rng.random()
         planted = []
         if prop == "C04" and src < 0.3:
@@ -680,6 +741,7 @@ class RewriteSim:
             vs = rng.choice(["x", "xy", "xyz", "ab", "mnk"])
             text = rw_expr(rng, rng.randint(1, 3), vs)
             cfg["source"] = "grammar"
+        _POOL["nums"] = _POOL["exps"] = None
         cfg["start"] = text
         cfg["planted"] = planted
         # swarm: rule subset and weights
